@@ -9,6 +9,7 @@ import Core.Props.C07
 import Core.Props.C02chain
 import Core.Props.C12
 import Core.Props.Cchain
+import Core.Props.C06
 open Std
 
 set_option maxRecDepth 100000
@@ -65,6 +66,40 @@ theorem C02_chain_interleaved (env : Env) (cfg : Cfg) (n : Node) (hr : Reachable
           n.led.blocks.dropLast[p]? = some b' ∧ b'.txs[k']? = some t' ∧ t'.id = i.txId ∧ UtxoReg.creates t' = true ∧
           t'.outputs[i.index]? = some o ∧ (p < q ∨ (p = q ∧ k' ≤ k))) :=
   C02_chain env cfg n hr.reachable
+
+/-- no operation shortens the chain (C06's "never to a shorter chain", for every operation) -/
+theorem C06_step_never_shorter (env : Env) (cfg : Cfg) (n : Node) (o : Op) (hw : o.WF) :
+    n.led.blocks.length ≤ (Ru.step env cfg n o).led.blocks.length := by
+  have h := C12_step_prefix env cfg n o hw
+  cases o with
+  | submit tx => simp only at h; rw [h]
+  | regsync newly => simp only at h; rw [h]
+  | tick ts perm rid =>
+    simp only at h
+    rcases h with h | ⟨b, h, _⟩
+    · rw [h]
+    · rw [h]; simp
+  | sync now resps pick =>
+    simp only [step]
+    split
+    · rename_i l hl
+      exact C06_never_shorter env cfg n.led now resps l (List.mem_of_getElem? hl)
+    · exact Nat.le_refl _
+
+/-- **C06 with interleaving**: a round during which the node's own tick (or a submission) ran never leaves the node
+    with a chain shorter than the one it held when the round started -/
+theorem C06_never_shorter_interleaved (env : Env) (cfg : Cfg) (n : Node) (x : OpX) (hw : x.WF) :
+    n.led.blocks.length ≤ (stepX env cfg n x).led.blocks.length := by
+  obtain ⟨os, hos, hstep⟩ := stepX_shadow env cfg n x
+  rw [hstep]
+  clear hstep
+  induction os generalizing n with
+  | nil => exact Nat.le_refl _
+  | cons o os ih =>
+    have h1 := C06_step_never_shorter env cfg n o (hw o (hos o List.mem_cons_self))
+    have h2 := ih (Ru.step env cfg n o) (fun o' ho' => hos o' (List.mem_cons_of_mem _ ho'))
+    show n.led.blocks.length ≤ (Ru.run env cfg (Ru.step env cfg n o) os).led.blocks.length
+    exact Nat.le_trans h1 h2
 
 /-- ticks of an extended operation are never dated 0 -/
 def OpX.TickNonzero (x : OpX) : Prop := ∀ o ∈ x.shadows, Ru.TickNonzero o
